@@ -35,3 +35,11 @@ func (v *VerifEngineBreaker) Rewind(d time.Duration) {
 		atomic.StoreInt64(&v.cb.lastFailure, x-int64(d))
 	}
 }
+
+// VerifRewindEndpointBreaker simulates "d passes" for the breaker the running service holds for an endpoint.
+func VerifRewindEndpointBreaker(s *Service, endpoint string, d time.Duration) {
+	cb := s.GetCircuitBreaker(endpoint)
+	if x := atomic.LoadInt64(&cb.lastFailure); x != 0 {
+		atomic.StoreInt64(&cb.lastFailure, x-int64(d))
+	}
+}
